@@ -212,6 +212,9 @@ Plan generate(Rng &rng, const Opts &opts, uint64_t runIndex)
             }
             p.steps.push_back(mk(0, "RESOLVE"));
             p.steps.push_back(mk(0, "FLATTEN"));
+            if (keep != 0) {
+                p.steps.push_back(mk(0, "RESOLVE")); // the same call again while the fault is still there
+            }
             p.steps.push_back(mk(9, "FS", {F_RESTORE, -1, 0, 0}));
             long repair = (slot / 3) % 3; // fresh importer, removeAllModels, or the same importer untouched
             p.steps.push_back(repair == 0 ? mk(0, "IMPORTER", {strict, keep}) : (repair == 1 ? mk(0, "CLEAR") : mk(0, "NOP")));
@@ -331,6 +334,8 @@ struct Client
     FileSpec rootSpec;
     int rootFile = -1;
     int rootVersion = -1;
+    long answerEpoch = -1; // world epoch at which `answer` was given (-1: none)
+    std::string answer; // verdict and issues of this client's last RESOLVE
     bool haveVerdict = false; // a verdict for (root, importer) from the last RESOLVE is still meaningful
     bool lastReal = false;
     Verdict lastRef = Verdict::SAT;
@@ -831,6 +836,7 @@ void execute(const Plan &plan, Ctx &ctx)
     }
     std::vector<Client> clients(2);
     std::vector<std::shared_ptr<ImporterState>> retired;
+    long epoch = 0; // advanced by everything that may change what a resolution sees (files, libraries, importers, root models)
     if (plan.c("sweep", 0) != 0) {
         size_t nFaults = singleFaults(w.pristine).size();
         if (long(nFaults) > SWEEP_SLOTS) {
@@ -858,6 +864,7 @@ void execute(const Plan &plan, Ctx &ctx)
         if (s.op == "FS") {
             ctx.begin(stepNo, "FS", faultName(int(s.arg(0))));
             w.apply({int(s.arg(0)), s.arg(1), s.arg(2), s.arg(3)}, ctx);
+            ++epoch;
             continue;
         }
         if (s.op == "ARM") {
@@ -867,6 +874,7 @@ void execute(const Plan &plan, Ctx &ctx)
         }
         if (s.op == "IMPORTER") {
             ctx.begin(stepNo, "IMPORTER", "");
+            ++epoch;
             if (s.arg(1) != 0 && c.imp != nullptr) {
                 // the client keeps its previous importer (and so the models its root is still linked to) alive
                 retired.push_back(c.imp);
@@ -880,6 +888,7 @@ void execute(const Plan &plan, Ctx &ctx)
             continue;
         }
         if (s.op == "SHARE") {
+            ++epoch;
             if (clients[0].imp != nullptr) {
                 clients[1].imp = clients[0].imp;
                 clients[1].haveVerdict = false;
@@ -894,6 +903,7 @@ void execute(const Plan &plan, Ctx &ctx)
         auto &imp = *c.imp;
         if (s.op == "ROOT") {
             ctx.begin(stepNo, "ROOT", "");
+            ++epoch;
             size_t file = size_t(s.arg(0)) % w.pristine.files.size();
             const FileVersion *v = w.vfs.at(w.pristine.files[file].path);
             c.root = nullptr;
@@ -926,6 +936,7 @@ void execute(const Plan &plan, Ctx &ctx)
         }
         if (s.op == "CLEAR") {
             ctx.begin(stepNo, "CLEAR", "");
+            ++epoch;
             imp.importer->removeAllModels();
             imp.refLibrary.clear();
             for (auto &cl : clients) {
@@ -988,6 +999,36 @@ void execute(const Plan &plan, Ctx &ctx)
             w.vfs.onOpen = nullptr;
             imp.usedSinceClear = true;
             ctx.count("resolve_calls");
+            if (inflightFired) {
+                ++epoch;
+            }
+            {
+                // C12: the same call on the same importer and the same model, with nothing in between that could change
+                // what it sees, gives the same verdict and the same issues
+                // (MESSAGE-level notes are left out: "given model is a CellML 1.1 model" describes the act of reading a file
+                // and is given when the file is read, not when the model comes from the library, which is documented state)
+                std::string answer = str(real) + "\n";
+                for (size_t i = 0; i < imp.importer->issueCount(); ++i) {
+                    auto is = imp.importer->issue(i);
+                    if (is != nullptr && is->level() != Issue::Level::MESSAGE) {
+                        answer += str(long(is->level())) + "|" + str(long(is->referenceRule())) + "|" + is->description() + "\n";
+                    }
+                }
+                if (c.answerEpoch == epoch && !inflightFired) {
+                    ctx.count("resolve_repeated_with_nothing_in_between");
+                    if (answer != c.answer) {
+                        ctx.violate("C12", "repeated-call-different-answer", "Importer.resolveImports,same-importer", "resolveImports() repeated on the same importer and model, nothing in between, answers differently: first '" + esc(c.answer.substr(0, 300)) + "' then '" + esc(answer.substr(0, 300)) + "'");
+                        return;
+                    }
+                }
+                for (auto &cl : clients) {
+                    if (&cl != &c && cl.imp == c.imp) {
+                        cl.answerEpoch = -1; // the shared library may have grown
+                    }
+                }
+                c.answer = answer;
+                c.answerEpoch = inflightFired ? -1 : epoch; // a call during which the files changed saw a mixture: not comparable
+            }
             // what was served
             std::map<std::string, std::set<int>> served; // normalised path -> versions (-1 = absent) served by opens
             std::set<int> versionsServed;
